@@ -222,6 +222,47 @@ def run_cue(case):
         return run_bytes(p)
 
 
+# ----------------------------------------------------------------------------- large text inputs
+def bigtext_cases():
+    """text files of 1-3 MB with very many short lines (the cue-sheet reader sees every text file first): work must stay
+    proportional to the size -- each of these is read in well under a second by a linear reader"""
+    out = []
+    for what, n in (("rem", 400000), ("blank", 1500000), ("letter", 600000), ("track", 6000), ("index", 200000), ("title", 150000),
+                    ("ff", 600000), ("crlf", 500000)):
+        out.append({"what": what, "n": n})
+    return out
+
+
+def bigtext_bytes(c):
+    n = c["n"]
+    if c["what"] == "rem":
+        return b"REM x\n" * n
+    if c["what"] == "blank":
+        return b"\n" * n
+    if c["what"] == "letter":
+        return b"a\n" * n
+    if c["what"] == "ff":
+        return b"\xff\n" * n
+    if c["what"] == "crlf":
+        return b"\r\n" * n
+    head = b'FILE "disc.bin" BINARY\n'
+    if c["what"] == "track":
+        return head + b"".join(b"  TRACK %02d AUDIO\n    INDEX 01 00:00:00\n" % (k % 99 + 1) for k in range(n))
+    if c["what"] == "index":
+        return head + b"  TRACK 01 AUDIO\n" + b"    INDEX 01 00:00:00\n" * n
+    return head + b"  TRACK 01 AUDIO\n" + b'    TITLE "t"\n' * n + b"    INDEX 01 00:00:00\n"
+
+
+def run_bigtext(c):
+    with scratch_dir("c13t") as d:
+        with open(os.path.join(d, "disc.bin"), "wb") as f:
+            f.write(Q.bin_bytes(Q.SECTOR * 3))
+        p = os.path.join(d, "big.cue")
+        with open(p, "wb") as f:
+            f.write(bigtext_bytes(c))
+        return run_bytes(p)
+
+
 # ----------------------------------------------------------------------------- damaged containers
 def container_cases():
     """the wrapper around the image is input too: the 64-bit length field of the MDX header (too small, off by one, far
@@ -245,7 +286,7 @@ def container_bytes(c):
            "roland": lambda: subject("roland")[0]}[c["payload"]]()
     if c["what"] == "raw2352-cut":
         return C.mode1_2352(pay)[:c["cut"]] if c["cut"] < 3 * 2352 else C.mode1_2352(pay)[:c["cut"]]
-    b = bytearray(C.mdx(pay))
+    b = bytearray(C.mdx(pay, descriptor=0))
     real = len(b)
     if c["what"] == "mdx-eof":
         v = {"0": 0, "1": 1, "63": 63, "64": 64, "65": 65, "real-1": real - 1, "real": real, "real+1": real + 1, "2real": 2 * real,
@@ -392,7 +433,8 @@ class Check(CheckBase):
             "fat_entry/type/loop points/loop mode/cluster_top/options; (cue) every line deleted / duplicated / replaced by 8 "
             "hostile lines and by 70 regular-expression stress lines (keyword + unterminated quote/number list + 40 x one character), "
             "bin missing or empty, 15 framings of the unchanged lines (leading / trailing blank and whitespace-only lines, no final "
-            "newline, CR LF / bare CR, NUL, form feed, blank lines between all lines); (containers) MDX header length field x 15 values (0 .. real+-1 .. 2^64-1) x 5 payloads, damaged MDX "
+            "newline, CR LF / bare CR, NUL, form feed, blank lines between all lines); (bigtext) 8 text files of 1-3 MB with 6 000 .. 1 500 000 short lines (comment, blank, TRACK/INDEX/TITLE, "
+            "non-ASCII, CR LF); (containers) MDX header length field x 15 values (0 .. real+-1 .. 2^64-1) x 5 payloads, damaged MDX "
             "version, MDX cut in the middle, MODE1/2352 images cut at 10 odd lengths; thorough: ALL PAIRS of table faults (AKAI SAT x SAT, Roland FAT x FAT) and "
             "all pairs (table fault, pointer/entry fault). Every run = ls at the root and at every reachable node + export, "
             "under an 8 s CPU budget (clean run: 0.03-0.3 s) and a 6 GiB address-space limit; (growth) 10 input families whose size "
@@ -435,6 +477,8 @@ class Check(CheckBase):
         multi += [[a, b, c] for a in fa for b in nk for c in lk]
         out += [{"kind": "faults", "subject": "akai", "cases": multi[i:i + 60]} for i in range(0, len(multi), 60)]
         out.append({"kind": "containers"})
+        for c in bigtext_cases():
+            out.append({"kind": "bigtext", "case": c})
         for fam in SCALE_FAMILIES:
             for n in ((60,) if self.quick else (60, 150)):
                 out.append({"kind": "scaling", "family": fam, "n": n})
@@ -469,13 +513,18 @@ class Check(CheckBase):
                 ok, klass, detail = run_scaling(c)
             elif c["kind"] == "container":
                 ok, klass, detail = run_bytes(container_bytes(c))
+            elif c["kind"] == "bigtext":
+                ok, klass, detail = run_bigtext(c)
             else:
                 ok, klass, detail = run_bytes(apply_faults(c["subject"], c["faults"]))
             rep.case(c, ok=ok, klass=klass, detail=detail, sig=f"{c['kind']}:{klass}")
             return
         kind = shard["kind"]
         hangs = 0
-        if kind == "containers":
+        if kind == "bigtext":
+            ok, klass, detail = run_bigtext(shard["case"])
+            rep.case(dict(shard["case"], kind="bigtext"), ok=ok, klass=klass, nontrivial=True, detail=detail, sig="bigtext:" + klass + ":" + shard["case"]["what"])
+        elif kind == "containers":
             for c in container_cases():
                 ok, klass, detail = run_bytes(container_bytes(c))
                 rep.case(dict(c, kind="container"), ok=ok, klass=klass, nontrivial=True, detail=detail, sig="container:" + klass + ":" + c["what"])
